@@ -327,7 +327,8 @@ class World(DuoWorld):
         if flip:
             op.tamper[direction] = ("flip", self.mode[2])
         else:
-            for d in ("event", "invocation", "result", "error"):
+            # ("progress": every progressive result of the call is tampered with in the same way - a swapped stream)
+            for d in ("event", "invocation", "result", "error", "progress"):
                 if ch.flag("tamper:" + d, 0.25):
                     op.tamper[d] = (ch.pick(("flip", "substitute", "relabel", "strip-enc"), "how"), ch.choose(400, "pos"))
         op.outcome = None
